@@ -20,7 +20,7 @@ pub fn run_case(c: &Sexp) -> Option<R<Sexp>> {
     }
 }
 
-fn kb_of(x: &Sexp) -> R<KnowledgeBase> {
+pub fn kb_of(x: &Sexp) -> R<KnowledgeBase> {
     let l = x.list()?;
     if l.is_empty() || l[0] != a("kb") { return Err(format!("kb: {}", x.to_text())); }
     let mut kb = KnowledgeBase::new();
